@@ -104,6 +104,10 @@ type ApplyRequest struct {
 	Database     int      `json:"Database"`
 	CMD          []string `json:"CMD"`
 	Key          string   `json:"Key"` // Optional: Used with delete-key type to specify which key to delete.
+	// Optional: Used with delete-key type when the key is deleted because it expired. The expiry time
+	// (unix nanoseconds) the sender saw: the key is only deleted while it still carries that expiry,
+	// so a key that was written again in the meantime survives. 0 deletes unconditionally.
+	ExpiredAt int64 `json:"ExpiredAt"`
 }
 
 // applyRequestWire is the JSON form of an ApplyRequest. Command arguments and keys are arbitrary
@@ -116,12 +120,13 @@ type applyRequestWire struct {
 	Database     int      `json:"Database"`
 	CMD          [][]byte `json:"CMD"`
 	Key          []byte   `json:"Key"`
+	ExpiredAt    int64    `json:"ExpiredAt"`
 }
 
 func (r ApplyRequest) MarshalJSON() ([]byte, error) {
 	w := applyRequestWire{
 		Type: r.Type, ServerID: r.ServerID, ConnectionID: r.ConnectionID,
-		Protocol: r.Protocol, Database: r.Database, Key: []byte(r.Key),
+		Protocol: r.Protocol, Database: r.Database, Key: []byte(r.Key), ExpiredAt: r.ExpiredAt,
 	}
 	for _, arg := range r.CMD {
 		w.CMD = append(w.CMD, []byte(arg))
@@ -136,7 +141,7 @@ func (r *ApplyRequest) UnmarshalJSON(b []byte) error {
 	}
 	*r = ApplyRequest{
 		Type: w.Type, ServerID: w.ServerID, ConnectionID: w.ConnectionID,
-		Protocol: w.Protocol, Database: w.Database, Key: string(w.Key),
+		Protocol: w.Protocol, Database: w.Database, Key: string(w.Key), ExpiredAt: w.ExpiredAt,
 	}
 	for _, arg := range w.CMD {
 		r.CMD = append(r.CMD, string(arg))
